@@ -607,3 +607,5 @@ PROPS["C16"]["rule"] += (" crolt part: a third of the jobs are slow (their HTTP 
 PROPS["C09"]["rule"] += " A 'bulk' operation stores 20-70 facts in one location at once, so that inherited results exceed 64 entries."
 PROPS["C09"]["rule"] += " The parent set is also written and removed as what the manual says it is, an ordinary property fact ({\"!parents\": [...]} / id \"!.parents\")."
 PROPS["C15"]["rule"] += " The actions of scheduled rules report the `location` and `ruleId` bindings they see, which must be those of the ticking rule."
+PROPS["C11"]["rule"] += (" Besides the solo-vs-concurrent comparison, everything an event or search returns must carry the client's own "
+                         "tags (this also holds in the solo runs, which share the process with whatever ran before).")
